@@ -44,7 +44,8 @@ CFG = {
     "theorems": ["C09_preimage_spec", "C09_preimage_spec_gen", "C09_preimage_refuted_dup_length", "C09_preimage_refuted_empty_datums",
                  "C09_views_canonical", "C09_views_only_used", "C09_same_bytes", "C09_same_bytes_history", "C09_calc_preimage",
                  "C09_aux", "C09_stale_hash_not_detected", "C09_calc_noop_keeps_hash", "C09_wf_invariant",
-                 "C09_slices_sound", "C09_same_bytes_history_bytes"],
+                 "C09_slices_sound", "C09_same_bytes_history_bytes", "C09_same_bytes_additive", "C09_aux_history",
+                 "C09_aux_format_flag", "C09_aux_wire_reencode"],
     "allowed_axioms": [],
     "compare": _compare,
     "nontrivial": _nontrivial,
